@@ -170,7 +170,8 @@ class NCons(object):
         self.name = n
 
     def violation(self):
-        return self.value if self.kind == "inequality" else abs(self.value)
+        # equalities are searched as roots: expr(scale) is increasing in the scale of the initial displacement
+        return self.value
 
 
 # ---- functions -----------------------------------------------------------------------------------------------
@@ -322,7 +323,12 @@ class NFunc(object):
             w, f = rough[0]
             f.forced[_key(xs)] = -gs / w
         elif len(rough) > 1:
-            raise Unsupported("several non-smooth terms at a stationary point")
+            if not smooth and all(isinstance(f.member, (M.BallIndicator, M.BoxIndicator)) for w, f in rough):
+                # a point of the intersection of the sets: 0 belongs to every normal cone
+                for w, f in rough:
+                    f.forced[_key(xs)] = np.zeros_like(xs)
+            else:
+                raise Unsupported("several non-smooth terms at a stationary point")
         return xs
 
 
@@ -448,6 +454,8 @@ class NPEP(object):
             m = hook(cls, params, rng, CTX.dim) if hook else None
             if m is None:
                 m = M.make_member(cls, params, rng, dim=CTX.dim)
+            if CTX.adversary.get("common_centre") and hasattr(m, "c") and isinstance(getattr(m, "c"), np.ndarray):
+                m.c = np.zeros_like(m.c)       # all declared functions share their minimiser / zero
         ok, why = m.self_test(rng)
         if not ok:
             raise Unsupported("member self-test failed: %s" % why)
@@ -644,6 +652,17 @@ NUMERIC_STEPS = {
 }
 
 
+class _NullPoint(NPt):
+    """the library's null_point: the zero vector of the current run's dimension"""
+
+    def __init__(self):
+        self.name = None
+
+    @property
+    def v(self):
+        return np.zeros(CTX.dim)
+
+
 class _FreeLeaf(object):
     def __call__(self, *a, **kw):
         raise Unsupported("free leaf Point()/Expression() in an example")
@@ -664,7 +683,7 @@ def patch_module(mod):
             setattr(mod, name, _FreeLeaf())
         elif name in ("null_point",):
             saved[name] = val
-            setattr(mod, name, None)
+            setattr(mod, name, _NullPoint())
 
     def restore():
         for k, v in saved.items():
@@ -725,6 +744,9 @@ def run_numeric(func_module, func_name, kwargs, member_seed, dir_seed, dim, adve
         perf, worst, ctx = once(lo)
         if worst > 1e-9:
             raise InvalidRun("constraint violated by %.3e at the feasible scale" % worst)
+        for c, tag in ctx.constraints:
+            if c.kind == "equality" and abs(c.value) > 1e-7 * (1 + abs(perf)):
+                raise InvalidRun("an equality constraint is off by %.3e" % c.value)
         return {"perf": perf, "scale": lo, "worst_constraint": worst, "n_constraints": len(ctx.constraints),
                 "members": [f.member.describe() for f in ctx.functions]}
     finally:
